@@ -907,13 +907,17 @@ class Interp:
         if isinstance(f, type) and dataclasses.is_dataclass(f) and (sym or getattr(self, "symbolic_records", False)):
             return self.construct_record(f, args, kwargs)
         if sym:
-            if isinstance(f, types.FunctionType) and self.inline_fallback(f):
+            fb, fb_args = f, args
+            if isinstance(f, types.MethodType) and isinstance(f.__func__, types.FunctionType) \
+                    and (isinstance(f.__self__, type) or isinstance(f.__self__, Sym)):
+                fb, fb_args = f.__func__, [f.__self__] + list(args)      # classmethod / method of a symbolic record
+            if isinstance(fb, types.FunctionType) and self.inline_fallback(fb):
                 self._fallback_depth = getattr(self, "_fallback_depth", 0) + 1
                 if not hasattr(self.ctx, "inlined"):
                     self.ctx.inlined = {}
-                self.ctx.inlined[f"{f.__module__}:{f.__qualname__}"] = f
+                self.ctx.inlined[f"{fb.__module__}:{fb.__qualname__}"] = fb
                 try:
-                    return self.call_function(f, args, kwargs)
+                    return self.call_function(fb, fb_args, kwargs)
                 finally:
                     self._fallback_depth -= 1
             owner = getattr(f, "__self__", None)
